@@ -63,14 +63,6 @@ def bracket_depth(src):
     return best
 
 
-def has_huge_int(text):
-    return any(len(m.lstrip("0")) >= 19 for m in re.findall(r"\d{19,}", text))
-
-
-def json_ints(text):
-    return [int(x) for x in re.findall(r"(?<![\w.\"])-?\d+(?![\w.\"])", text)]
-
-
 # input predicates of the OPEN findings only (the predicates of fixed findings were removed with the fix: nothing can
 # be classified as F7 F15 F29 N1 N2 N5 N6 N7 N8 N9 N10 N11 H1 H2 any more)
 PRED = {
